@@ -63,6 +63,15 @@ def _models(tier, seed):
                                 anchor=int(rng.randint(2)) if k != 'F' else 0,
                                 geom=1))
       specs.append(phys.spec_of(links))
+  # level-grouping patterns of scan.tree (three roots with uneven child
+  # counts), single-joint links
+  stars = [sh for sh in phys.star_forests(6) if sh.count(-1) == 3 and
+           len(sh) >= 5]
+  if tier == 'quick':
+    stars = [sh for sh in stars if sh in ((-1, 0, 0, -1, -1, 4),
+                                          (-1, 0, -1, -1, 3, 3),
+                                          (-1, 0, 0, -1, -1))]
+  specs += phys.level_pattern_models(seed, stars, tag='c08lvl')
   for s in specs:
     s['actuators'] = []
     s['option'] = dict(timestep=0.002)
@@ -74,7 +83,70 @@ def tasks(tier, seed):
   for k, g in phys.group_by_skeleton(_models(tier, seed), per_task=30):
     ts.append(dict(name='skel %s n=%d' % (k[:2], len(g)), specs=g,
                    cost=40 + len(g)))
+  for pipe in ('spring', 'positional'):
+    ts.append(dict(name='contact histories %s' % pipe, kind='contact',
+                   pipe=pipe, cost=60))
   return ts
+
+
+def _contact_scene(seed):
+  rng = scope.rng_for(seed, 'c08contact')
+  root = scope.link('F', -1, rng)
+  root['geom'] = dict(type='sphere', size=[0.15], pos=None, quat=None,
+                      collide=True)
+  root['pos'] = [0, 0, 0.3]
+  flag = scope.link('H', 0, rng, aid=2, pose=1, geom=1)
+  return dict(links=[root, flag], actuators=[], option=dict(timestep=0.002),
+              world_geoms=[dict(type='plane', size=[5, 5, 0.1], collide=True,
+                                pos=[0, 0, 0])],
+              custom=dict(elasticity=0.5))
+
+
+def check_contact_histories(pipe, tier, seed, res):
+  """Every step of short impact histories: the reported (q, qd) must be the
+  inverse image of the reported (x, xd), also when a contact corrects the
+  velocities."""
+  import jax
+  import jax.numpy as jp
+  from brax import kinematics
+  spec = _contact_scene(seed)
+  sys, _ = scope.load(spec)
+  p = pipes.module(pipe)
+  T = 40
+
+  def f(sys, q, qd):
+    def body(st, _):
+      st = p.step(sys, st, jp.zeros(0))
+      j, jd, _, _ = kinematics.world_to_joint(sys, st.x, st.xd)
+      q2, qd2 = kinematics.inverse(sys, j, jd)
+      pen = st.x.pos[0, 2] - 0.15
+      return st, (st.q, st.qd, q2, qd2, pen)
+    return jax.lax.scan(body, p.init(sys, q, qd), (), length=T)[1]
+  g = jax.jit(jax.vmap(f, in_axes=(None, 0, 0)))
+  rng = scope.rng_for(seed, 'c08contactstates')
+  n = 16
+  Q = np.array([np.concatenate([rng.uniform(-0.2, 0.2, 2), [rng.uniform(
+      0.16, 0.2)], scope.generic_quat(rng), rng.uniform(-1, 1, 1)])
+      for _ in range(n)])
+  D = np.array([np.concatenate([rng.uniform(-1, 1, 2), [rng.uniform(-3, -1)],
+                                rng.uniform(-6, 6, 3), rng.uniform(-2, 2, 1)])
+                for _ in range(n)])
+  q, qd, q2, qd2, pen = [np.asarray(x) for x in g(phys.strip(sys), Q, D)]
+  touched = int((pen.min(axis=1) < 0.0).sum())
+  res['evaluations'] += n * T
+  res['nontrivial'] += touched * T
+  res['extra']['histories_with_contact'] = touched
+  eq = np.abs(q - q2).max(axis=2)
+  ed = np.abs(qd - qd2).max(axis=2)
+  bad = (eq > 1e-9) | (ed > 1e-9)
+  if bad.any():
+    i, t = np.argwhere(bad)[0]
+    res['violations'].append(dict(
+        key='C08:reported-state:%s' % pipe,
+        what='%s: at step %d of an impact history the reported (q,qd) is not '
+        'the inverse image of the reported link poses (|dq|=%.3g |dqd|=%.3g)'
+        % (pipe, t, eq[i, t], ed[i, t]),
+        case=dict(kind='contact', pipe=pipe, seed=seed, tier=tier)))
 
 
 _F = {}
@@ -244,6 +316,11 @@ def _is_ancestor(spec, a, b):
 def run_task(task):
   res = dict(evaluations=0, nontrivial=0, violations=[], samples=[],
              outcomes=[], extra={})
+  if task.get('kind') == 'contact':
+    check_contact_histories(task['pipe'], task['tier'], task['seed'], res)
+    res['samples'].append(dict(kind='impact histories', pipe=task['pipe']))
+    res['outcomes'] = [task['name']]
+    return res
   for spec in task['specs']:
     check_model(spec, task['tier'], task['seed'], res)
     if len([v for v in res['violations'] if v['what'] != 'upstream limitation'
@@ -258,6 +335,11 @@ def replay(rec):
   import jax.numpy as jp
   from brax import kinematics
   c = rec['case']
+  if c.get('kind') == 'contact':
+    res = dict(evaluations=0, nontrivial=0, violations=[], extra={})
+    check_contact_histories(c['pipe'], c['tier'], c['seed'], res)
+    return (not res['violations']), '\n'.join(v['what'] for v in
+                                               res['violations']) or 'holds'
   spec = c['spec']
   sys, mj = scope.load(spec)
   q, qd = jp.asarray(c['q']), jp.asarray(c['qd'])
